@@ -142,9 +142,14 @@ mod api {
   }
 
   fn setup(topic: &str) -> Setup {
+    setup_with_queue(topic, 64)
+  }
+
+  /// `cap`: capacity of the command queue between the DataWriter and the Writer
+  fn setup_with_queue(topic: &str, cap: usize) -> Setup {
     let node = Node::new(0);
     let wguid = GUID::new(node.prefix, rig::user_writer_eid(1, true));
-    let (ing, ends) = rig::writer_ingredients(wguid, topic, &wqos(), 64, 64);
+    let (ing, ends) = rig::writer_ingredients(wguid, topic, &wqos(), cap, 64);
     let writer = Writer::new(ing, rig::udp_sender(), mio_extras::timer::Builder::default().build(), node.participant_status_tx.clone());
     let dw = frontend::data_writer::<Msg, CDRSerializerAdapter<Msg, LittleEndian>>(ends, wguid, topic, &wqos());
     Setup { node, writer, wguid, dw }
@@ -153,7 +158,11 @@ mod api {
   /// scenario 1: async form, strict executor, single thread, deterministic
   pub fn async_form(c: &mut Choices, o: &mut Outcome) {
     let _g = CaseGuard::new();
-    let mut s = setup("rig_topic_c20a");
+    // sometimes the wait is first polled while the command queue to the Writer is full (the
+    // application has just written a burst that the event loop has not taken yet)
+    let full_queue = c.chance(60);
+    let cap = if full_queue { 1 + c.pick(3) } else { 64 };
+    let mut s = setup_with_queue("rig_topic_c20a", cap);
     let nreaders = c.pick(4);
     let readers: Vec<(GUID, bool)> = (0..nreaders)
       .map(|i| (GUID::new(rig::node_prefix(95 + i as u8), rig::user_reader_eid(1, true)), !c.chance(60)))
@@ -165,8 +174,8 @@ mod api {
     let nwrites = c.pick(4);
     for i in 0..nwrites {
       let _ = s.dw.write(Msg { id: i as u32, name: "a".into(), v: 0 }, None);
+      s.writer.process_writer_command();
     }
-    s.writer.process_writer_command();
     let last = nwrites as i64;
     let mut acked: Vec<i64> = vec![0; nreaders];
     let mut matched: Vec<bool> = vec![true; nreaders];
@@ -180,6 +189,16 @@ mod api {
         acked[r] = acked[r].max(base);
       }
     }
+    // the burst: exactly as many writes as the queue holds, not yet taken by the Writer
+    let last = if full_queue {
+      for i in 0..cap {
+        let _ = s.dw.write(Msg { id: 100 + i as u32, name: "b".into(), v: 0 }, None);
+      }
+      o.label("first-poll-with-full-command-queue");
+      last + cap as i64
+    } else {
+      last
+    };
     let pending_at_call: BTreeSet<usize> = (0..nreaders)
       .filter(|r| matched[*r] && readers[*r].1 && last >= 1 && acked[*r] <= last)
       .collect();
@@ -198,8 +217,12 @@ mod api {
     let waker: Waker = fw.clone().into();
     let mut fut = Box::pin(s.dw.async_wait_for_acknowledgments());
     let mut done: Option<bool> = None;
+    // with a full queue the very first poll comes before the Writer has taken anything from it
+    let mut first_poll_before_processing = full_queue;
     let mut step = |writer: &mut Writer, done: &mut Option<bool>, pending: &BTreeSet<usize>, what: &str, o: &mut Outcome| {
-      writer.process_writer_command();
+      if !std::mem::take(&mut first_poll_before_processing) {
+        writer.process_writer_command();
+      }
       if done.is_some() {
         return;
       }
@@ -216,11 +239,16 @@ mod api {
         }
         // the command may just have been queued: let the writer see it, and poll
         // again only if that woke us
-        writer.process_writer_command();
-        if done.is_none() && fw.flag.swap(false, Ordering::SeqCst) {
-          let mut cx = Context::from_waker(&waker);
-          if let Poll::Ready(Ok(b)) = fut.as_mut().poll(&mut cx) {
-            *done = Some(b);
+        // (with a full queue the first poll only parks the task: once more for the command itself)
+        for _ in 0..3 {
+          writer.process_writer_command();
+          if done.is_none() && fw.flag.swap(false, Ordering::SeqCst) {
+            let mut cx = Context::from_waker(&waker);
+            if let Poll::Ready(Ok(b)) = fut.as_mut().poll(&mut cx) {
+              *done = Some(b);
+            }
+          } else {
+            break;
           }
         }
       }
